@@ -6,6 +6,8 @@
 //   clone,<newoid>,<path>                 clone_object(<path>, <newoid>)
 //   dest,<oid>                            destruct(<object oid>)
 //   reload,<oid>                          reload_object(<object oid>)
+// Virtual objects: a load/clone of a path without a file asks master::compile_object, which (policy) clones a
+// template as `v<n>`; the driver renames that object to the virtual path.
 // Every op prints one result line `r ...`; create() prints `new <oid> <object name> <uid> <euid>`.
 #include "/include/vcommon.h"
 #define REG "/c20/reg"
@@ -31,21 +33,33 @@ void announce () {
   int n;
   fn = file_name (this_object ());
   if (!stringp (oid)) {
-    if (sscanf (fn, "%*s#%d", n) == 2) oid = REG->oid_of (this_object ());
-    else if (sscanf (fn, "/c20/%s/%s", d, f) == 2) oid = d + f;
-    else oid = "?";
+    oid = REG->oid_of (this_object ());            // reload_object cleared the variable: keep the registered id
+    if (oid == "?") {
+      if (sscanf (fn, "/c20/%s/%s", d, f) == 2 && sscanf (fn, "%*s#%d", n) != 2) oid = d + f;
+    }
   }
   REG->reg (oid, this_object ());
   VL ("new " + oid + " " + fn + " " + us (getuid ()) + " " + us (geteuid ()));
 }
 
-mixed do_op (string s);
+string do_op (string s);
 
 // one op: `do` line, the op with its `r` line, uid snapshot
-void run_op (string op) {
+string run_op (string op) {
+  string r;
   VL ("do " + oid + " " + op);
-  do_op (op);
+  r = do_op (op);
   if (this_object ()) REG->snap ();   // after destruct(this_object()) the registry prints the snapshot
+  return r;
+}
+
+// create()-script key of an object: its file name, clones share `<path>#`
+string script_key (object o) {
+  string key;
+  int n;
+  key = file_name (o);
+  if (sscanf (key, "%s#%d", key, n) == 2) key += "#";
+  return key;
 }
 
 // derived registry id of a blueprint path, "?" for other names
@@ -63,8 +77,7 @@ void create (mixed s) {
   if (stringp (s)) oid = s;
   announce ();
   REG->snap ();
-  key = file_name (this_object ());
-  if (sscanf (key, "%s#%d", key, n) == 2) key += "#";
+  key = script_key (this_object ());
   ops = REG->script (key);
   if (!stringp (ops)) return;
   REG->enter ();
@@ -73,7 +86,7 @@ void create (mixed s) {
 }
 #endif
 
-mixed do_op (string s) {
+string do_op (string s) {
   string *w;
   mixed r, e;
   object o;
@@ -113,13 +126,14 @@ mixed do_op (string s) {
     break;
   case "reload":
     o = REG->get (w[1]);
-    if (!o || w[1] == "m" || REG->depth () > 0) r = "nobj";
+    // inside a create() script only objects whose own create() runs no script (no re-entrant scripts)
+    if (!o || w[1] == "m" || (REG->depth () > 0 && stringp (REG->script (script_key (o))))) r = "nobj";
     else { e = catch (reload_object (o)); r = 1; }
     break;
   default:
     r = "badop";
   }
-  if (e) VL ("r err " + canon_err (e));
-  else VL ("r " + r);
-  return 0;
+  if (e) r = "err " + canon_err (e);
+  VL ("r " + r);
+  return "" + r;
 }
